@@ -57,6 +57,14 @@ void srv_tunnel_tun(void)
 	tunnel_tun(11, &srv_fds);
 }
 
+void srv_set_ns_ip(const unsigned char *ip4)
+{
+	if (ip4)
+		memcpy(&ns_ip, ip4, 4);
+	else
+		ns_ip = INADDR_ANY;
+}
+
 void srv_sweep(void)
 {
 	/* the two per-iteration loops of tunnel(): clear q_sendrealsoon_new before select(),
